@@ -21,8 +21,8 @@ def tiClock (text : List Char) (micro : Option (List Char)) (dot : Bool) (iv : O
 /-- a month-name token (full via %B, or abbreviated via %b) -/
 def tiMonthFull (text : List Char) (m : Nat) (merid : Option (List Char)) : TI :=
   { text := text, ty := 1, mon := some m, merid := merid }
-def tiMonthAbbr (text : List Char) (m : Nat) (full : Option Nat) (merid : Option (List Char)) : TI :=
-  { text := text, ty := 1, mon := full, monb := some m, merid := merid }
+def tiMonthAbbr (text : List Char) (m : Nat) (alsoFull : Bool) (merid : Option (List Char)) : TI :=
+  { text := text, ty := 1, mon := if alsoFull then some m else none, monb := some m, merid := merid }
 
 /-- a weekday-name token -/
 def tiWeekday (text : List Char) (idx : Nat) (merid : Option (List Char)) : TI :=
@@ -39,24 +39,13 @@ def allOrders : List (List Comp) :=
 
 theorem timeDetect_plain (toks : List TI) (i : Nat) (t : TI) (hm : t.hmMerge = none) (hc : t.colon = false)
     (hall : ∀ t' ∈ toks, t'.merid = none) : timeDetect toks i t = none := by
-  have hmer : ∀ j : Nat, (match toks[j]? with | none => (none : Option (List Char)) | some (mt : TI) => mt.merid) = none := by
+  have hmer : ∀ j : Nat, (toks[j]?).bind TI.merid = none := by
     intro j
     cases h : toks[j]? with
     | none => rfl
     | some mt => exact hall mt (List.mem_of_getElem? h)
   unfold timeDetect
-  simp only [hm, hc, Option.isSome_none, Bool.false_or, Bool.false_and, Bool.or_false]
-  have hmic : (match toks[i + 1]? with
-      | none => (none : Option (List Char))
-      | some nx => match nx.micro with
-        | none => none
-        | some _ => none) = none := by
-    cases toks[i+1]? with
-    | none => rfl
-    | some nx => simp only; cases hx : nx.micro <;> simp
-  simp only [Bool.false_eq_true, if_false]
-  simp
-  exact ⟨hmer _, hmic⟩
+  simp [hm, hc, hmer]
 
 /-- the `__init__` loop on tokens none of which takes part in time detection or is skipped -/
 def plainLoop (order : List Comp) : PS → List TI → Except PyErr PS
